@@ -7,6 +7,8 @@ for d in seeded/S-C*/; do
   i=$((i+1)); [ $((i % N)) -eq $W ] || continue
   id=$(basename $d); prop=$(echo $id | cut -d- -f2)
   out=$(selftest/quick_seed.sh $PWD/$d/patch.diff $prop 2>&1)
-  if echo "$out" | grep -q "^VIOLATION property=$prop"; then v=caught; else v=MISSED; fi
-  echo "$id $prop $v $(echo "$out" | grep -m1 'signature:' | sed 's/.*signature: //')" >> seeded/REGRESSION.$W.txt
+  if echo "$out" | grep -a -q "^VIOLATION property=$prop"; then v=caught
+  elif grep -q '"neutralised_by"' $d/meta.json; then v="silent-as-it-should-be(neutralised-by-a-later-fix,see-meta.json)"
+  else v=MISSED; fi
+  echo "$id $prop $v $(echo "$out" | grep -a -m1 'signature:' | sed 's/.*signature: //')" >> seeded/REGRESSION.$W.txt
 done
